@@ -34,7 +34,8 @@ struct Scenario {
     long upper = 2;
     int topLevels = -2;               // periodic top tree: -2 none, else nbLevelsAbove0 (-1..3)
     int threadsCtor = 2, threadsExec = 2;
-    bool ctorWithKernel = false;      // construct the executor from a kernel object instead of from the configuration
+    bool ctorWithKernel = false;
+    bool upperDefault = false;        // do not pass the upper working level: the constructors' default (2) applies      // construct the executor from a kernel object instead of from the configuration
     std::vector<std::array<double, 3>> src, tgt;
     std::vector<HistOp> history;
     // schedule
@@ -61,7 +62,7 @@ struct Scenario {
         for (int d = 0; d < 3; ++d) { c.push(Json::hexf(centre[size_t(d)])); w.push(Json::hexf(width[size_t(d)])); }
         j.set("centre", c).set("width", w);
         j.set("block_size", blockSize).set("one_group_per_parent", oneGroupPerParent).set("upper", upper).set("top_levels", topLevels);
-        j.set("threads_ctor", threadsCtor).set("threads_exec", threadsExec).set("ctor_with_kernel", ctorWithKernel);
+        j.set("threads_ctor", threadsCtor).set("threads_exec", threadsExec).set("ctor_with_kernel", ctorWithKernel).set("upper_default", upperDefault);
         auto parts = [](const std::vector<std::array<double, 3>>& v) {
             Json a = Json::array();
             for (const auto& p : v) { Json q = Json::array(); for (int d = 0; d < 3; ++d) q.push(Json::hexf(p[size_t(d)])); a.push(q); }
@@ -121,6 +122,7 @@ struct Scenario {
         s.threadsCtor = int(j.getInt("threads_ctor", 2));
         s.threadsExec = int(j.getInt("threads_exec", 2));
         s.ctorWithKernel = j.getBool("ctor_with_kernel", false);
+        s.upperDefault = j.getBool("upper_default", false);
         auto parts = [](const Json& a, std::vector<std::array<double, 3>>& v) {
             for (const Json& q : a.a) v.push_back(std::array<double, 3>{{q.a[0].asReal(), q.a[1].asReal(), q.a[2].asReal()}});
         };
